@@ -5,7 +5,7 @@
    Save per visited node, because a node's target set mentions the root at most once; at most one
    Restore per root).  Without in-degree <= 1 the spanning "tree" of a root unfolds a DAG and the
    count can be exponential. *)
-From Coq Require Import List Bool Arith Lia.
+From Coq Require Import List Bool Arith NArith Lia.
 From SCC Require Import Model.ParMoves.
 Import ListNotations.
 
@@ -154,3 +154,17 @@ Proof.
   apply G; [apply incl_refl | exact NK].
 Qed.
 End Count.
+
+(* in-degree <= 1 is needed: on a chain of d diamonds (a -> b, c; b -> e; c -> e; e -> ...) the spanning
+   tree of the first root unfolds the DAG: 2^(d+2) - 4 pseudo-instructions for 4 d edges *)
+Fixpoint diamonds (d : nat) (base : nat) : amap nat :=
+  match d with
+  | O => []
+  | S d' => (base, [base + 1; base + 2]) :: (base + 1, [base + 3]) :: (base + 2, [base + 3]) :: diamonds d' (base + 3)
+  end.
+Definition diamonds_count (d : nat) : option (N * N * N) :=
+  let A := diamonds d 0 in
+  match spanning_forest nat Nat.eqb (List.length (all_targets nat A) + 2) A with
+  | Some rs => Some (N.of_nat (List.length (flat_map (root_moves nat) rs)), N.of_nat (List.length (all_targets nat A)), N.of_nat (List.length A))
+  | None => None
+  end.
